@@ -171,7 +171,7 @@ func checkCase(c paramCase) (o pbt.Outcome) {
 	if c.Complete {
 		var stmts []ast.StmtNode
 		var perr error
-		if p := pbt.Catch(func() { stmts, _, perr = parser.New().Parse(text, "", "") }); p != "" {
+		if p := pbt.Catch(func() { stmts, _, perr = sqlParser.Parse(text, "", "") }); p != "" {
 			perr = fmt.Errorf("parser panic: %s", p)
 		}
 		if perr != nil || len(stmts) != 1 {
@@ -243,6 +243,10 @@ func sortInts(a []int) {
 		}
 	}
 }
+
+// one parser instance for the whole run (parser.New allocates its tables anew each
+// time); Parse resets it, so the check stays a function of the case alone
+var sqlParser = parser.New()
 
 func TestC14Params(t *testing.T) {
 	pbt.Run(t, pbt.Spec{ID: "C14", Sub: "params", Quick: 30000, Thorough: 300000,
